@@ -135,6 +135,13 @@ SHAPE_DOCS = {
     'cmdin': [('x-cmd/in', PAY[0]), ('x-cmd/in', CSS[1]), ('x-cmdio/copy', PAY[1]), ('x-cmdio/other; a=b', JSON[0])],
     # $out only (stdin in, result file out), literal and pattern-served, with and without an extension
     'cmdout': [('x-cmd/out', PAY[0]), ('x-cmd/out', CSS[1]), ('x-cmdout/upper', PAY[1]), ('x-cmdout/v; q=1', JSON[0])],
+    # calls that FAIL AFTER the minifier has written output (css, xml, svg never fail on their own; js fails before output)
+    'jsonF': [('application/json', b'[1, 2, 3] x'), ('application/json', b'{"a": 1.0, "b": }'), ('application/ld+json', b'{"k": [1, 2, {"z": tru')],
+    'htmlF': [('text/html', b'<p> text </p><script>var = ;</script><p> more </p>')],
+    'htmlFa': [('text/html', b'<div style="color: red">x</div><button onclick="var = ;">b</button>')],
+    'htmlFj': [('text/html', b'<p>a</p><script type="application/ld+json">{"a": }</script>')],
+    'userF': [('text/x-failafter', PAY[0]), ('x-failre/any; a=1', CSS[1])],
+    'cmdF': [('x-cmd/fail', PAY[1]), ('x-cmd/fail', JSON[0])],
     # Match, then the driver invokes the returned function (no outer read hold)
     'matchL': [('text/html', HTML0[0]), ('text/html; charset=utf-8', HTML0[1])],
     'matchC': [('text/css; inline=1', CSSI[0])],
@@ -161,12 +168,16 @@ GATE_DOCS = {
     'svgG': [('image/svg+xml', b'<svg xmlns="http://www.w3.org/2000/svg"><style>a { fill: url("data:application/x-gate;id=%d,zz") }</style>'
                                b'<path d="M 0 0 L 1.0 1.0 z"/></svg>')],
     'htmlCG': [('text/html', b'<p style="background: url(\'data:x-gatere/s;id=%d,q\'); margin: 0px"> t </p>')],
+    'htmlSG': [('text/html', b'<p>s</p><style> a { background: url("data:application/x-gate;id=%d,in%%20style") } </style>')],
+    'htmlIG': [('text/html', b'<iframe><p> in  frame </p><script type="application/x-gate;id=%d">fr ame</script></iframe>')],
+    'htmlVG': [('text/html', b'<p>v <svg xmlns="http://www.w3.org/2000/svg"><style>a { fill: url("data:application/x-gate;id=%d,zz") }</style>'
+                             b'<path d="M 0 0 L 1.0 1.0 z"/></svg></p>')],
     'gate': [('application/x-gate; id=%d', PAY[0])],
     'gatere': [('x-gatere/q; id=%d', PAY[1]), ('x-gatere/other;id=%d', PAY[0])],
     'matchG': [('application/x-gate; id=%d', PAY[1])],          # parked inside the function Match returned: no read hold at all
     'matchGre': [('x-gatere/m; id=%d', PAY[0])],
 }
-PAIR_SHAPES = ['html0', 'htmlC', 'htmlD', 'htmlS', 'htmlS3', 'css', 'cssD', 'cssi', 'js', 'json', 'xml', 'svg0', 'svg2', 'cmd', 'cmdin', 'cmdout', 'none']
+PAIR_SHAPES = ['html0', 'htmlC', 'htmlD', 'htmlS', 'htmlS3', 'css', 'cssD', 'cssi', 'js', 'json', 'xml', 'svg0', 'svg2', 'cmd', 'cmdin', 'cmdout', 'none', 'jsonF', 'htmlF']
 PARK_SHAPES = sorted(GATE_DOCS) + sorted(HOLD_SHAPES)
 MAXGATE = 40
 
@@ -201,7 +212,8 @@ class Pool:
     def call(self, rnd, sh, gid=0, entry=None):
         if sh in HOLD_SHAPES:
             mt, d = rnd.choice(self.by_shape[HOLD_SHAPES[sh]])
-            return dict(e=rnd.choice(['Writer', 'Reader']), mt=mt, doc=d, gate=gid, sh=sh, hold=True)
+            return dict(e=rnd.choice(['Writer', 'Reader']), mt=mt, doc=d, gate=gid, sh=sh, hold=True,
+                        at=rnd.choice([1, 1, 6, 14, 25, 40, 70, 120]))
         if sh in GATE_DOCS:
             mt, d = rnd.choice(self.gate[(sh, gid)])
         else:
@@ -400,6 +412,43 @@ def cold_scenarios(pool, rnd, quick, optsets):
     return out
 
 
+FAIL_SHAPES = ['jsonF', 'htmlF', 'htmlFa', 'htmlFj', 'userF', 'cmdF']
+GOOD_AFTER = ['css', 'cssi', 'js', 'json', 'xml', 'svg0', 'html0', 'htmlC', 'upper', 'cmd', 'none']
+
+
+def fail_scenarios(pool, rnd, quick, optsets, sid0):
+    """a call that fails after output, for every entry point: (good, failing, good) with the same entry point on one
+    goroutine, (failing, good) on two goroutines in sequence, and a goroutine that only fails beside goroutines that
+    pass only well-formed input (leftovers of a failed call must never reach another call's result)"""
+    out = []
+    S = lambda g, k: dict(op='start', g=g, k=k)
+    D = lambda g, k: dict(op='done', g=g, k=k)
+    for fsh in FAIL_SHAPES:
+        for e in ENTRIES:
+            for v in (['gfg'] if quick else ['gfg', 'two', 'gfg']):
+                g1 = pool.call(rnd, rnd.choice(GOOD_AFTER), entry=e)
+                g2 = pool.call(rnd, rnd.choice(GOOD_AFTER), entry=e)
+                fc = pool.call(rnd, fsh, entry=e)
+                if v == 'gfg':
+                    progs, script = [[g1, fc, g2, dict(g1)]], [x for k in (1, 2, 3, 4) for x in (S(1, k), D(1, k))]
+                else:
+                    progs, script = [[fc, dict(fc)], [g1, g2]], [S(1, 1), D(1, 1), S(2, 1), D(2, 1), S(1, 2), D(1, 2), S(2, 2), D(2, 2)]
+                out.append(dict(kind='sched', id='%s%d' % (sid0, len(out)), optset=rnd.choice(optsets), gomaxprocs=rnd.choice([1, 4, 16]),
+                                progs=progs, script=script, pair=[fsh, e, 'fail-' + v]))
+    # concurrently: goroutine 1 only fails, goroutines 2..4 only pass well-formed input, same entry point throughout
+    for e in ENTRIES:
+        for rep_ in range(1 if quick else 3):
+            fails = [pool.call(rnd, rnd.choice(FAIL_SHAPES), entry=e) for _ in range(4)]
+            goods = [[pool.call(rnd, rnd.choice(GOOD_AFTER), entry=e) for _ in range(4)] for _ in range(3)]
+            progs = [fails] + goods
+            script = []
+            for k in (1, 2, 3, 4):
+                script += [S(g, k) for g in (1, 2, 3, 4)] + [D(g, k) for g in (4, 3, 2, 1)]
+            out.append(dict(kind='sched', id='%s%d' % (sid0, len(out)), optset=rnd.choice(optsets), gomaxprocs=rnd.choice([4, 16]),
+                            progs=progs, script=script, pair=['fail', e, 'fail-conc']))
+    return out
+
+
 def call_pool(pool, rnd, optsets, quick):
     """calls used by the sequential pass and the stress runs"""
     calls = []
@@ -408,7 +457,7 @@ def call_pool(pool, rnd, optsets, quick):
             if sh.startswith('match'):
                 calls.append(dict(e='Match', mt=mt, doc=d, gate=0, sh=sh))
             else:
-                es = ENTRIES if not quick else rnd.sample(ENTRIES, 3)
+                es = ENTRIES if (not quick or sh in FAIL_SHAPES) else rnd.sample(ENTRIES, 3)
                 for e in es:
                     calls.append(dict(e=e, mt=mt, doc=d, gate=0, sh=sh))
     for mt, d in pool.extra:
@@ -664,7 +713,7 @@ def describe(sc, lines, whys):
 def identity(sc, pool):
     """what identifies a witness: the scenario with documents by content"""
     def cc(c):
-        return [c['e'], c['mt'], hashlib.sha1(pool.docs[c['doc']]).hexdigest()[:12], c.get('gate', 0)] + (['hold'] if c.get('hold') else [])
+        return [c['e'], c['mt'], hashlib.sha1(pool.docs[c['doc']]).hexdigest()[:12], c.get('gate', 0)] + (['hold', c.get('at', 1)] if c.get('hold') else [])
     d = dict(kind=sc['kind'], optset=sc.get('optset', 0), gomaxprocs=sc.get('gomaxprocs', 0))
     if sc.get('calls'):
         d['calls'] = [cc(c) for c in sc['calls']]
@@ -723,7 +772,8 @@ NEG = [('ConcNeg_reg_noblocking', 'NoBlocking'), ('ConcNeg_reg_deadlock', 'deadl
        ('ConcNeg_nocopy_svgorder', 'Deterministic'), ('ConcNeg_loosecap_sro', 'SharedReadOnly'),
        ('ConcNeg_loosecap_det', 'Deterministic'), ('ConcNeg_cmdin_sro', 'SharedReadOnly'),
        ('ConcNeg_cmdin_det', 'Deterministic'), ('ConcNeg_htmldep_sro', 'SharedReadOnly'),
-       ('ConcNeg_lazy_sro', 'SharedReadOnly'), ('ConcNeg_lazy_det', 'Deterministic')]
+       ('ConcNeg_lazy_sro', 'SharedReadOnly'), ('ConcNeg_lazy_det', 'Deterministic'),
+       ('ConcNeg_pool_sro', 'SharedReadOnly'), ('ConcNeg_pool_det', 'Deterministic'), ('ConcNeg_pool_conc', 'Deterministic')]
 
 
 def model_check(ctx):
@@ -832,6 +882,8 @@ def _run(ctx, exe, quick, rnd, mc_info):
     pairs = pair_scenarios(pool, rnd, quick, optsets, 'p')
     mmm = mmm_scenarios(pool, rnd, quick, optsets, 'm')
     pairs += mmm
+    fails = fail_scenarios(pool, rnd, quick, optsets, 'f')
+    pairs += fails
     calls = call_pool(pool, rnd, optsets, quick)
     seqs = []
     for o in optsets:
@@ -996,7 +1048,9 @@ def _run(ctx, exe, quick, rnd, mc_info):
         rule='histories = (a) TLC -simulate walks of spec/Conc.tla (3 goroutines x 2 calls, 4 x 1; eager and lazy gate release) '
              'replayed as gate schedules, (b) every ordered pair of %d media-type shapes run sequentially / on two goroutines / '
              'concurrently / beside a parked reader, plus Match-Minify-Match on every regexp-registered and literal type '
-             '(one goroutine, two goroutines, concurrently), (c) cold starts: one fresh driver process per media-type shape whose first action is N goroutines making their first '
+             '(one goroutine, two goroutines, concurrently), (b2) calls that fail AFTER output was written (truncated JSON, script errors below html, failing user minifier and '
+             'command) through every entry point: good-failing-good on one goroutine, on two goroutines, and one failing goroutine '
+             'beside three that pass only well-formed input, (c) cold starts: one fresh driver process per media-type shape whose first action is N goroutines making their first '
              'call of that type together (reference calls repeated afterwards in the same process), (c2) stress runs goroutines {2,8,64} x GOMAXPROCS {1,4,16} '
              'with parked readers and Match before/after, (d) one sequential pass per option set on one registry, (e) all reference '
              'calls repeated in a second process; a call is (entry point, media type, document, option set). Non-trivial = distinct '
@@ -1007,7 +1061,8 @@ def _run(ctx, exe, quick, rnd, mc_info):
              'html.Minifier.KeepConditionalComments=true (deprecated option). AddCmd with $in/$out placeholders is an ordinary '
              'member of the registry since fix fd040d4; its former witnesses run as regression scenarios.' % len(PAIR_SHAPES),
         samples=samples,
-        scripted_histories=len(scheds), pair_histories=len(pairs) - len(mmm), match_minify_match_histories=len(mmm),
+        scripted_histories=len(scheds), pair_histories=len(pairs) - len(mmm) - len(fails), match_minify_match_histories=len(mmm),
+        failing_after_output_histories=len(fails),
         stress_runs=len(stress), cold_start_processes=len(colds),
         reference_calls=sum(len(b['calls']) for b in bases), repo_test_documents=nrepo,
         shape_checks=sum(len(sc['calls']) for sc in shapes),
